@@ -170,6 +170,16 @@ def run_tlc(name, module, cfg_text, workers=None, timeout=600, simulate=None, de
     return r
 
 
+def run_tlc_parts(name, module, cfg_template, nparts, timeout=900, workers=1):
+    """Run nparts TLC processes in parallel; cfg_template has %(part)d and %(nparts)d."""
+    from concurrent.futures import ThreadPoolExecutor
+    def one(i):
+        return run_tlc("%s_p%02d" % (name, i), module, cfg_template % {"part": i, "nparts": nparts},
+                       workers=workers, timeout=timeout)
+    with ThreadPoolExecutor(max_workers=NCPU) as ex:
+        return list(ex.map(one, range(nparts)))
+
+
 def tlc_must_pass(r, what):
     if not r.ok:
         raise Infra("TLC did not verify %s: violated=%s error=%s\n%s" % (what, r.violated, r.error, r.out[-3000:]))
